@@ -5,10 +5,10 @@ package verifharness
 // projection of the implementation state that spec/ChfSeqTrace.tla judges.
 
 import (
-	"net/url"
 	"bufio"
 	"encoding/json"
 	"fmt"
+	"net/url"
 	"os"
 	"strconv"
 	"strings"
@@ -18,7 +18,18 @@ import (
 	"github.com/free5gc/chf/cdr/asn"
 	"github.com/free5gc/chf/cdr/cdrType"
 	chf_context "github.com/free5gc/chf/internal/context"
+	"github.com/free5gc/chf/pkg/factory"
 )
+
+var deadPortNum int
+
+// deadPort is a port of this process's reservation on which nothing listens (connections are refused at once).
+func deadPort() int {
+	if deadPortNum == 0 {
+		deadPortNum = FreePort()
+	}
+	return deadPortNum
+}
 
 type Acct struct {
 	U     string `json:"u"`
@@ -45,6 +56,8 @@ type Step struct {
 	C       string   `json:"c"`
 	Onetime bool     `json:"onetime"`
 	Ett     string   `json:"ett"` // oneTimeEventType ("" = absent)
+	// Fault: "abmf" = the account balance function cannot be reached while this request is served
+	Fault string `json:"fault"`
 	Usage   []Usage  `json:"usage"`
 	Trig    []string `json:"trig"`
 	Rg      string   `json:"rg"`
@@ -317,9 +330,22 @@ func (d *SeqDriver) runOne(b *Behaviour) {
 				}
 				args["nfc"] = st.Nfc
 				args["ref"] = ref
+				if st.A == "update" {
+					flt := st.Fault
+					if flt == "" {
+						flt = "none"
+					}
+					args["fault"] = flt
+				}
+				ab := factory.ChfConfig.Configuration.AbmfDiameter
+				good := ab.Port
+				if st.Fault == "abmf" {
+					ab.Port = deadPort()
+				}
 				bb, _ := json.Marshal(body)
 				// (the reference is one path segment: a consumer escapes it as such)
 				r = env.Do("POST", base+"/"+url.PathEscape(ref)+"/"+st.A, bb, nil, 30*time.Second)
+				ab.Port = good
 				res = httpRes(r)
 			}
 			// what the consumer may use next: the grant of this answer, per rating group
